@@ -13,6 +13,12 @@ CHECKS = {
  "C04": ("S", "explicit-state BFS over registration/removal histories on the real router (with and without WithTrace), four-view method-set oracle against the reference table in every state",
          "Every history over the C04 alphabet up to depth 3 (quick) / 5 (thorough) on five patterns that split one another; in every reachable state the Allow header of OPTIONS and 405 responses as sent, Node().Methods(), Node().AllowHeader(), Routes() and OPTIONS * are compared with the model, including the initial state observed in a virgin process.",
          "Bounded depth and pool; the OPTIONS/405 handlers are the harness's builder-made handlers which read AllowHeader() at request time, as README and examples/std do.", "4/C04"),
+ "C05": ("SI", "explicit-state BFS over Handle/Remove/Clean histories with a hostile request alphabet in every state, plus exhaustive enumeration of all pattern strings up to a length bound through every pattern-taking entry point",
+         "(a) every state of the lifecycle search (depth 3 quick / 4 thorough) probed with empty/unknown methods and hostile paths ('', '*', all byte strings over a 9-byte alphabet incl. NUL and non-UTF-8 up to length 2-3, edit-1 neighbours of witnesses, 32K/64K paths); groups behind every matcher kind with all Host strings over an 8-byte alphabet up to length 3 and malformed Accept values; (b) all 3.3M (quick, len<=6) / 39M (thorough, len<=7) pattern strings over a 12-byte syntax alphabet through CheckSyntax, URL, Router.URL, Handle on fresh and populated routers, then served.",
+         "Bounded string lengths and alphabets chosen to contain every byte the parser and matcher distinguish; the harness handler never panics by itself.", "4/C05"),
+ "C17": ("S", "explicit-state BFS over registration histories; in every state every member of a rejected-call set is executed on a replayed copy and the full observation vector is compared before/after; positive clauses by exhaustive enumeration of ordered pattern pairs",
+         "Every state over the C04 alphabet up to depth 2 (quick) / 4 (thorough), with and without WithTrace, x ~80 rejected Handle calls (duplicates, bad method lists in every position, malformed patterns sharing prefixes, rename-only patterns): must panic with an error value and leave Routes(), all dispatch outcomes, Allow headers and OPTIONS * unchanged. All ordered pairs over the dispatch pool and its renamed / '-'-flipped variants decide always-rejected and never-falsely-ambiguous.",
+         "Bounded depth and pools; internal restructuring without observable effect is reported as a note only, as the property is about observable state.", "4/C17"),
  "C03": ("S", "explicit-state BFS over Handle/Remove/Clean histories on the real router, dedup on a reflective dump of its private state, reference table + resolver as oracle on every state",
          "Every history over the C03 alphabet up to the depth bound (quick 3, thorough 5), from every reachable deduplicated implementation state, probed with every method on witness and first-byte-variant paths; Routes(), dispatch, frame condition and no-panic are checked in every state against an independent table model.",
          "Bounded depth and finite pattern pool; the state merge relies on the reflective dump covering all router state (field-generic, so new fields are included automatically).", "4/C03"),
